@@ -246,7 +246,7 @@ class Engine:
             # heap typing: a reference stored in the heap is null or an object that exists; for the initial heap
             # it existed initially (so it differs from every object allocated during the function)
             key = ("alloc-fact", val.get_id())
-            if key not in st.memo:
+            if key not in st.memo and not self.bound_stack:
                 st.memo[key] = True
                 if self._pristine(f"{owner}.{field}", arr):
                     st.assume(z3.Or(val == NULL, z3.Select(z3.Const("alloc0", st.alloc.sort()), val)))
@@ -286,8 +286,21 @@ class Engine:
         st.fresh_terms[r.get_id()] = r
         return V(Ref(cls), r)
 
+    def escape_value(self, st, v):
+        """Objects put into an SMT collection become reachable through terms other than their own constant."""
+        if st is None or not st.local_fields:
+            return
+        if isinstance(v, V):
+            for rid in self.mentions_fresh(st, v.term):
+                self.escape(st, rid)
+        elif isinstance(v, (VList, VTuple)):
+            for x in v.items:
+                self.escape_value(st, x)
+
     def coerce(self, val, kind, st=None):
         """Convert a value to a given SMT kind."""
+        if isinstance(val, (VList, VTuple)) and isinstance(kind, (Seq, SetK)):
+            self.escape_value(st, val)
         if isinstance(val, V):
             if val.kind == kind:
                 return val
@@ -695,7 +708,17 @@ class Engine:
                     else:
                         yield from rec(i + 1, st2, {**acc, ("sym", len(acc)): (k, v)})
         for st1, items in rec(0, st, {}):
-            yield st1, VDict(items)
+            hook = getattr(self, "dict_literal_hook", None)
+            cls = hook(items) if hook else None
+            if cls is not None:
+                obj = self.new_object(st1, cls, cls.lower())
+                h = self.schema_lookup(cls, "methods", "__setitem__")
+                for k, v in items.items():
+                    for _ in h(self, st1, obj, [const(k), v], {}, e):
+                        pass
+                yield st1, obj
+            else:
+                yield st1, VDict(items)
 
     def ev_Starred(self, e, st):
         for st1, v in self.ev(e.value, st):
